@@ -11,7 +11,8 @@ MIN_EVALUATIONS = {"quick": 80000, "thorough": 80000}  # fewer oracle evaluation
 RULE = ("the reference target compares the first two bytes of every connected data item with those of the previous item on the same connection "
         "(a repeat is also answered from its reply cache, like a real target).  Workloads: (a) histories of > 65 535 real connected requests on "
         "one connection so the 16-bit counter wraps inside real traffic - one request kind per shard {generic message, single read, multi-tag "
-        "read, 2-/3-fragment read followed by single requests, fragmented write, bit writes, single writes, tag upload}; (b) for every request "
+        "read, 2-/3-fragment read followed by single requests, fragmented write, bit writes, single writes, tag upload, a fragmented read during "
+        "which the target answers one fragment 'partial transfer' with zero value bytes}; (b) for every request "
         "kind the driver's counter is advanced to within +-12 of the wrap (by drawing values from it, the state a long history reaches) and "
         ">= 40 real requests are issued across the wrap, for every phase offset; (c) lifecycle histories incl. redundant open() / with-blocks on an "
         "open driver, with lost replies / resets (a resent frame would repeat its count); (d) bulk read()/write() calls of n requests for n around "
